@@ -237,10 +237,9 @@ def config_case(draw, bases=None, generated=True, min_end=None, sampling_focus=F
                 if max(per) <= lo:
                     per[draw(st.integers(0, 2))] = lo + 1
                 edits.append((sec, "cells_per_side", ", ".join(str(p) for p in per)))
-        if base not in CELL_BOUNDED:
-            for sec, val in sections_with(text, "cell_level"):
-                if draw(st.integers(0, 2)) == 0:
-                    edits.append((sec, "maximum_number_occupants", str(draw(st.sampled_from([1, 2, 0])))))
+        # (the occupant limit of the shipped cell configurations is not edited: both the cell-veto handlers and the
+        # cell-bounding handlers take exactly one target unit per cell, so a limit other than 1 is outside their domain;
+        # other limits are exercised in the families G5 and G6 and in C10/cell_partition and C11/occupancy_legs)
         for sec, val in sections_with(text, "speed"):
             if draw(st.integers(0, 3)) == 0:
                 edits.append((sec, "speed", repr(draw(st.sampled_from([0.5, 2.0, 1.7])))))
@@ -272,6 +271,8 @@ def config_case(draw, bases=None, generated=True, min_end=None, sampling_focus=F
         hi = 6000          # longer histories in the thorough tier
     events = draw(st.integers(max_events[0], hi))
     case = {"base": base, "edits": [list(e) for e in edits], "seed": seed, "events": events}
+    if sampling_focus and "dump" not in base and draw(st.integers(0, 3)) == 0:
+        case["second_sampling"] = {"interval": round(draw(st.floats(0.05, 1.5)), 4), "zero": draw(st.booleans())}
     if "cell" in base and gen and N >= 3 and draw(st.booleans()):
         # initial configuration contracted into a corner of the box: several units per cell, surplus lists in use
         case["cluster"] = draw(st.sampled_from([0.25, 0.4, 0.6]))
@@ -402,7 +403,93 @@ def g5_text(lengths, per_side, N, power):
     return text
 
 
+def _camel(snake):
+    return "".join(part.capitalize() for part in snake.split("_"))
+
+
+def _snake(camel):
+    return re.sub(r"(?<!^)(?=[A-Z])", "_", camel).lower()
+
+
+def section_options(text, section):
+    """[(option, value)] of a section, multi-line values joined."""
+    out = []
+    in_section = False
+    for line in text.splitlines():
+        m = re.match(r"^\[(.+)\]\s*$", line)
+        if m:
+            in_section = (m.group(1) == section)
+        elif in_section and line.strip() and not line.lstrip().startswith("#"):
+            if line.startswith((" ", "\t")) and out:
+                out[-1] = (out[-1][0], (out[-1][1] + " " + line.strip()).strip())
+            elif "=" in line:
+                k, v = line.split("=", 1)
+                out.append((k.strip(), v.strip()))
+    return out
+
+
+def add_second_sampling(text, interval, zero):
+    """A second fixed-interval sampling tagger next to the shipped one (its section, its handler and its output handler
+    are copies of the shipped ones under new aliases; the tag is added wherever the shipped sampling tag is created,
+    trashed or activated by *other* taggers).  Two sampling handlers writing to two output handlers is a legal wiring
+    that no shipped file has; each must keep its own sample times and its own output."""
+    handler_sections = [sec for sec, _ in sections_with(text, "sampling_interval")]
+    if len(handler_sections) != 1:
+        return None
+    handler_section = handler_sections[0]
+    tagger_section = None
+    for sec, value in sections_with(text, "event_handler"):
+        if _camel(value.split("(")[0].strip()) == handler_section:
+            tagger_section = sec
+    if tagger_section is None:
+        return None
+    tag = _snake(tagger_section)
+    out_name = get_option(text, handler_section, "output_handler")
+    outputs = get_option(text, "InputOutputHandler", "output_handlers")
+    entry = [e.strip() for e in outputs.split(",") if e.strip().split("(")[0].strip() == out_name]
+    if not entry:
+        return None
+    out_class = entry[0].split("(")[1].rstrip(") ").strip() if "(" in entry[0] else out_name
+    out_section = _camel(out_name)
+    new_tag, new_handler, new_out = "verif_second_sampling", "verif_second_sampling_event_handler", \
+        "verif_second_output_handler"
+    # tagger list
+    taggers = get_option(text, "TagActivator", "taggers")
+    text = set_option(text, "TagActivator", "taggers", "\n    " + ",\n    ".join(
+        [t.strip() for t in re.split(r",\s*(?![^()]*\))", taggers) if t.strip()] + ["%s (no_in_state_tagger)" % new_tag]))
+    # lists of the other taggers
+    for option in ("create", "trash", "activate", "deactivate"):
+        for sec, value in [(s, get_option(text, s, option)) for s, _ in sections_with(text, option)]:
+            if sec == tagger_section or value is None:
+                continue
+            items = [x.strip() for x in value.split(",") if x.strip()]
+            if tag in items:
+                text = set_option(text, sec, option, ", ".join(items + [new_tag]))
+    text = set_option(text, "InputOutputHandler", "output_handlers", outputs.rstrip(", ") + ", %s (%s)" % (
+        new_out, out_class))
+    text += "\n[%s]\ncreate = %s\ntrash = %s\nevent_handler = %s (fixed_interval_sampling_event_handler)\n" % (
+        _camel(new_tag), new_tag, new_tag, new_handler)
+    text += "\n[%s]\nsampling_interval = %r\noutput_handler = %s\nfirst_event_time_zero = %s\n" % (
+        _camel(new_handler), interval, new_out, "True" if zero else "False")
+    text += "\n[%s]\n" % _camel(new_out)
+    for k, v in section_options(text, out_section):
+        if k == "filename":
+            stem, dot, ext = v.rpartition(".")
+            v = (stem + "_second." + ext) if dot else v + "_second"
+        text += "%s = %s\n" % (k, v)
+    return text
+
+
 def materialise(case):
+    text = _materialise(case)
+    if case.get("second_sampling"):
+        extended = add_second_sampling(text, case["second_sampling"]["interval"], case["second_sampling"]["zero"])
+        if extended is not None:
+            text = extended
+    return text
+
+
+def _materialise(case):
     if case["base"] == G5:
         text = g5_text(case["g5"]["lengths"], case["g5"]["per_side"], case["g5"]["N"], case["g5"]["power"])
         for sec, opt, val in case["edits"]:
